@@ -2,7 +2,7 @@ CONSTANTS
   Invocations = {"absolute", "relative_src", "relative_dot"}
   Constructs = {"ok_struct", "empty_tuple_struct", "empty_tuple_variant", "vec_noargs", "option_noargs", "hashmap_noargs",
                 "hashmap_onearg", "box_noargs", "unknown_typeshare_list", "typeshare_lang_list_bad", "underscore_field_camel",
-                "dunder_field_camel", "nonascii_variant_camel", "nonascii_field_pascal", "use_bare_crate", "use_glob_only",
+                "dunder_field_camel", "nonascii_variant_camel", "nonascii_field_pascal", "nonascii_field_snake", "nonascii_field_kebab", "nonascii_vfield_snake", "const_nonascii", "use_bare_crate", "use_glob_only",
                 "const_int", "const_string", "const_usize", "const_u64", "const_i64_neg", "const_bool", "const_user_type", "const_option", "not_rust", "not_utf8", "unit_struct", "empty_enum", "generic_map_key",
                 "serialized_as_garbage", "tuple_field", "u64_field", "nested_mod_fn", "unicode_rename", "raw_ident_field",
                 "doc_weird", "array_len_expr", "fn_pointer_field", "impl_trait_alias", "lifetime_generic", "const_generic",
